@@ -49,6 +49,25 @@ claim("C12", "exploration",
       "atomic; SimLock mirrors threading.Lock.",
       "DESIGN.md §4 C12")
 
+claim("C14", "exploration",
+      "schedule fuzzing + preemption-bounded DFS under a deterministic scheduler with a virtual clock; latency oracle "
+      "(return time == dispatch time); known-finding windows excluded by construction and counted",
+      "Interleavings of a waiting caller (1-2 of them) and a serving thread are generated values executed on the real "
+      "serve()/wait() code; because the virtual clock only moves when every thread is blocked, 'returned later than its "
+      "reply was dispatched' is an exact, deterministic observation. The two stall windows that exist in the pinned "
+      "tree (known findings F4/F4b) are reported as KNOWN-FINDING, then made atomic in the scheduler so that any other "
+      "stall shape is still a VIOLATION.",
+      "Line-granularity preemption in serve/wait/_bg_server; SimCondition/SimLock mirror threading; one scripted peer.",
+      "DESIGN.md §4 C14")
+claim("C13", "exploration",
+      "schedule fuzzing + preemption-bounded DFS under a deterministic scheduler; invariant oracle (own token, distinct "
+      "sequence numbers, dispatch-once ledger, deadlock and lost-wake-up detectors)",
+      "2-3 client threads and an optional background serving thread share one real Connection against a scripted raw "
+      "peer that answers in generated orders and injects its own requests; preemption points are the source lines of "
+      "the serving, sending, correlation and result-publication code. Sampling with bounded preemptions, not exhaustive.",
+      "Line-granularity preemption; itertools.count atomic; simulated primitives mirror threading.",
+      "DESIGN.md §4 C13")
+
 NOT_YET = "check not built yet in this revision (see DESIGN.md §8 build order)"
 
 
